@@ -39,6 +39,7 @@ class ThreadPeer(threading.Thread):
         self.sock = sock
         self.actions = actions
         self.recorded = bytearray()
+        self.pos = 0
         self.error = None
 
     def _readsome(self):
@@ -56,8 +57,11 @@ class ThreadPeer(threading.Thread):
                     self.sock.sendall(bytes.fromhex(a[1]))
                 elif a[0] == 'recuntil':
                     mark = bytes.fromhex(a[1])
-                    start = len(self.recorded)
-                    while len(self.recorded) - start < len(mark) or bytes(self.recorded[-len(mark):]) != mark:
+                    while True:
+                        k = self.recorded.find(mark, self.pos)
+                        if k >= 0:
+                            self.pos = k + len(mark)
+                            break
                         if not self._readsome():
                             return
                 elif a[0] == 's':
